@@ -829,6 +829,7 @@ void gen_query(int fi) {
     int has_src = has_tok(f, "S") || has_tok(f, "T");
     int has_l = has_tok(f, "l"), has_c = has_tok(f, "c");
     int src_str = has_tok(f, "S");
+    int has_kq = has_tok(f, "k");
     Case c;
     /* all strings over the alphabet up to maxlen for dest; same for src */
     long nd = 1; for (int i = 0; i < maxlen; i++) nd = nd * na + 1;   /* count of strings of length <= maxlen */
@@ -886,7 +887,8 @@ void gen_query(int fi) {
                                     }
                                 }
                                 c.c = has_c ? (ic < na ? alpha_q[ic] : 0) : 0;
-                                emit(&c);
+                                if (has_kq) { for (long kk = 0; kk <= maxlen + 2; kk++) { c.k = kk; emit(&c); } }      /* a count of elements to look at: none, fewer than, exactly and more than either operand has */
+                                else emit(&c);
                             }
                         }
                     }
